@@ -2,30 +2,33 @@
 (* The universe of small EBNF grammars for C09 (and C01 on grammars "as the user wrote them"):   *)
 (* right-hand sides are grown token by token; a production may be closed when it is balanced.    *)
 EXTENDS Ebnf, TLC, Json
-CONSTANTS NTs, Ts, MaxTok, MaxDepth, MaxProds, LangN, EmitLang
-VARIABLES prods, cur, done      \* finished productions; token sequence of the production being written
-vars == <<prods, cur, done>>
+CONSTANTS NTs, Ts, MaxTok, MaxDepth, MaxProds, LangN, EmitLang,
+          MaxPieces, PieceMode   \* FALSE: right-hand sides grow token by token; TRUE: by whole pieces (groups, optionals,
+                      \* repetitions with two alternatives ...) so that several of them fit into one production
+VARIABLES prods, cur, np, done  \* finished productions; token sequence of the production being written; pieces added
+vars == <<prods, cur, np, done>>
 NTSeq == SetToSeq(NTs)          \* the i-th production defines the i-th non-terminal of some fixed order, start = "S" first
 Order == <<"S">> \o SelectSeq(NTSeq, LAMBDA x : x # "S")
 Depth(t) == Cardinality({i \in 1..Len(t) : t[i] \in Open}) - Cardinality({i \in 1..Len(t) : t[i] \in Close})
-Init == prods = <<>> /\ cur = <<>> /\ done = FALSE
-\* the brackets that are open at the end of t (t is always a prefix of a balanced sequence)
-RECURSIVE OpenStack(_, _, _)
-OpenStack(t, i, st) == IF i > Len(t) THEN st
-                       ELSE IF t[i] \in Open THEN OpenStack(t, i + 1, Append(st, t[i]))
-                       ELSE IF t[i] \in Close THEN OpenStack(t, i + 1, SubSeq(st, 1, Len(st) - 1))
-                       ELSE OpenStack(t, i + 1, st)
-AddTok == /\ ~done /\ Len(cur) < MaxTok /\ Len(prods) < MaxProds
-          /\ LET st == OpenStack(cur, 1, <<>>) IN
-             \E t \in NTs \cup Ts \cup Meta :
-               /\ (t \in Open => Len(st) < MaxDepth)
-               /\ (t \in Close => (st # <<>> /\ Match(st[Len(st)]) = t))
-               /\ cur' = Append(cur, t)
+Init == prods = <<>> /\ cur = <<>> /\ np = 0 /\ done = FALSE
+\* a token sequence that can still be completed to a balanced one, nesting at most MaxDepth
+RECURSIVE PrefixOk(_, _, _)
+PrefixOk(t, i, st) == IF i > Len(t) THEN TRUE
+                      ELSE IF t[i] \in Open THEN Len(st) < MaxDepth /\ PrefixOk(t, i + 1, Append(st, t[i]))
+                      ELSE IF t[i] \in Close THEN st # <<>> /\ Match(st[Len(st)]) = t[i] /\ PrefixOk(t, i + 1, SubSeq(st, 1, Len(st) - 1))
+                      ELSE PrefixOk(t, i + 1, st)
+Pieces == {<<"(", "a", "|", "b", ")">>, <<"[", "a", "|", "b", "]">>, <<"{", "a", "|", "b", "}">>,
+           <<"(", "a", ")">>, <<"{", "b", "}">>, <<"a">>, <<"|">>, <<"(">>, <<")">>, <<"{">>, <<"}">>}
+AddTok == /\ ~done /\ Len(prods) < MaxProds
+          /\ IF PieceMode
+             THEN np < MaxPieces /\ \E p \in Pieces : Len(cur) + Len(p) <= MaxTok /\ PrefixOk(cur \o p, 1, <<>>) /\ cur' = cur \o p
+             ELSE Len(cur) < MaxTok /\ \E t \in NTs \cup Ts \cup Meta : PrefixOk(Append(cur, t), 1, <<>>) /\ cur' = Append(cur, t)
+          /\ np' = np + 1
           /\ UNCHANGED <<prods, done>>
 ClosProd == /\ ~done /\ Len(prods) < MaxProds /\ Balanced(cur, 1, <<>>)
-            /\ prods' = Append(prods, [lhs |-> Order[Len(prods) + 1], rhs |-> cur]) /\ cur' = <<>>
+            /\ prods' = Append(prods, [lhs |-> Order[Len(prods) + 1], rhs |-> cur]) /\ cur' = <<>> /\ np' = 0
             /\ UNCHANGED done
-Fin == ~done /\ prods # <<>> /\ cur = <<>> /\ done' = TRUE /\ UNCHANGED <<prods, cur>>
+Fin == ~done /\ prods # <<>> /\ cur = <<>> /\ done' = TRUE /\ UNCHANGED <<prods, cur, np>>
 Next == AddTok \/ ClosProd \/ Fin
 Spec == Init /\ [][Next]_vars
 
